@@ -33,7 +33,7 @@ INDEX_SCALARS = ["get_index", "get_market_index", "get_fundamental_index", "comp
 
 
 def budget(tier):
-    return 64 if tier == "quick" else 1200
+    return 64 if tier == "quick" else 4800
 
 
 def gen_case(rng, tier, idx):
